@@ -35,7 +35,7 @@ Reset ==
   /\ c2p' = [c \in Children |-> <<>>] /\ p2c' = [c \in Children |-> <<>>]
   /\ sent' = [c \in Children |-> <<>>] /\ got' = [c \in Children |-> <<>>]
   /\ reqlog' = <<>> /\ calls' = <<>>
-  /\ idle' = [c \in Children |-> 0] /\ pclosed' = [c \in Children |-> FALSE] /\ faults' = 0
+  /\ idle' = [c \in Children |-> 0] /\ pclosed' = [c \in Children |-> FALSE] /\ faults' = 0 /\ bg' = <<>>
 
 Hidden == ParentAccept \/ ParentRejectFrame \/ ParentRead \/ ParentEOF \/ ParentReply
 
